@@ -29,8 +29,8 @@ def per_trait(items, traits):
 
 
 def _take_qualified_attr(tokens):
-    """(args, rest) if the re-emitted item starts with a crate-path derive_ex attribute, else None (token text from the expander)"""
-    m = re.match(r"\s*#\s*\[\s*(?:::\s*)?derive_ex\s*::\s*derive_ex\s*\(", tokens)
+    """(args, rest) if the re-emitted item still starts with a derive_ex attribute macro (bare or crate path), else None (token text from the expander)"""
+    m = re.match(r"\s*#\s*\[\s*(?:(?:::\s*)?derive_ex\s*::\s*)?derive_ex\s*\(", tokens)
     if not m:
         return None
     i = m.end()
@@ -197,6 +197,21 @@ def run(ctx):
             if got is None or got != merged:
                 ctx.violation("B:C15:stacked-qualified:%s:%s" % (spelling, stacked_item), "the trait list split over stacked #[%s(..)] attributes does not give the impls of the merged list (helper attributes are consumed by the first expansion)" % spelling,
                               {"layer": "B", "item": stacked_item, "args": ", ".join(lists[0]), "merged": merged, "stacked": got})
+    # impl items: the requested set split over stacked attributes == the merged list
+    for hdr, body in [("impl core::ops::Add<A> for A", "type Output = A; fn add(self, r: A) -> A { A(self.0 + r.0) }"),
+                      ("impl<'a> core::ops::Sub<&'a A> for &'a A", "type Output = A; fn sub(self, r: &'a A) -> A { A(self.0 - r.0) }"),
+                      ("impl<T: Clone> core::ops::Mul<&G<T>> for G<T> where T: Copy", "type Output = G<T>; fn mul(self, _r: &G<T>) -> G<T> { self }")]:
+        op = re.search(r"ops::(\w+)", hdr).group(1)
+        item = "%s { %s }" % (hdr, body)
+        merged = impls_of(ex.attr("%s, %sAssign" % (op, op), item), True)
+        for first, second in ((op, op + "Assign"), (op + "Assign", op)):
+            for spelling in ("derive_ex", "derive_ex::derive_ex"):
+                got = expand_like_rustc(ex, first, "#[%s(%s)] %s" % (spelling, second, item))
+                evals += 3
+                nontriv += 1
+                if got is None or merged is None or sorted(got) != sorted(merged):
+                    ctx.violation("B:C15:impl-split:%s:%s:%s" % (spelling, first, hdr), "#[derive_ex(%s)] #[%s(%s)] on an impl item does not give the impls of the merged list" % (first, spelling, second),
+                                  {"layer": "B", "item": "#[%s(%s)] %s" % (spelling, second, item), "args": first, "merged": merged, "split": got})
     # systematic part of relation (c): every comparison trait, alone vs. with every co-derived subset of the other comparison traits,
     # on fields carrying only helper attributes that belong to that trait
     import itertools, cmpfam
@@ -232,6 +247,12 @@ def run(ctx):
     eprogs = [
         E.Prog("p_cfg_derive", "#[derive(derive_ex::Ex)]\n#[derive_ex(Clone, Debug, PartialEq)]\n" + cfg_item + rp, [], {"describe": "#[derive(Ex)] #[derive_ex(Clone, Debug, PartialEq)] " + cfg_item}),
         E.Prog("p_cfg_attr", "#[derive_ex::derive_ex(Clone, Debug, PartialEq)]\n" + cfg_item + rp, [], {"describe": "#[derive_ex(Clone, Debug, PartialEq)] " + cfg_item}),
+        E.Prog("p_derive_plus_crate_path", "#[derive(derive_ex::Ex)]\n#[derive_ex::derive_ex(Eq, PartialEq, Debug)]\npub struct X { pub a: u8 }\n#[derive_ex::derive_ex(Eq, PartialEq, Debug)]\n#[derive(derive_ex::Ex)]\n#[derive_ex(Clone)]\npub struct Y { pub a: u8 }\n" + rp, [],
+               {"describe": "#[derive(Ex)] stacked with a crate-path #[derive_ex::derive_ex(..)] attribute macro (each list expanded exactly once)"}),
+        E.Prog("p_cfg_attr_helper_attr", "#[derive_ex::derive_ex(Ord, PartialOrd, Eq, PartialEq)]\npub struct X(#[cfg_attr(all(), ord(ignore))] pub u8, pub u8);\n" + rp, [],
+               {"describe": "#[derive_ex(Ord, PartialOrd, Eq, PartialEq)] struct X(#[cfg_attr(all(), ord(ignore))] u8, u8);"}),
+        E.Prog("p_cfg_attr_helper_derive", "#[derive(derive_ex::Ex)]\n#[derive_ex(Ord, PartialOrd, Eq, PartialEq)]\npub struct X(#[cfg_attr(all(), ord(ignore))] pub u8, pub u8);\n" + rp, [],
+               {"describe": "#[derive(Ex)] #[derive_ex(Ord, PartialOrd, Eq, PartialEq)] struct X(#[cfg_attr(all(), ord(ignore))] u8, u8);"}),
         E.Prog("p_alias_split", "use derive_ex::derive_ex as dx;\n#[dx(PartialEq, Eq)]\n#[dx(Hash)]\n#[derive(Debug)]\npub struct S { #[eq(key = $.abs())] pub x: i32 }\n\n"
                "pub fn ncheck() -> Vec<String> { use core::hash::{Hash, Hasher}; let mut out = Vec::new(); let (a, b) = (S { x: 1 }, S { x: -1 });\n"
                "    let h = |s: &S| { let mut r = Rec::new(); s.hash(&mut r); r };\n"
